@@ -216,6 +216,8 @@ def answers(model, m, inp):
     a["components"] = _call(m.components)
     a["scores"] = _call(m.scores)
     if cross:
+        # predict first: it is the one call that reads the Y-side 'unseen' bookkeeping without writing it
+        a["predict.first"] = _call(m.predict, inp["Xnew"])
         a["transform.fit"] = _call(m.transform, inp["X"], inp["Y"])
         a["transform.new"] = _call(m.transform, inp["Xnew"], inp["Ynew"])
         sc = a["scores"]
